@@ -950,7 +950,7 @@ class ICalendarFile(File):
             if not segments:
                 yield True
             elif segments[0].startswith("P="):
-                assert len(segments) == 1
+                assert len(segments) in (1, 2)
                 try:
                     p = c[segments[0][2:]]
                 except KeyError:
@@ -959,8 +959,21 @@ class ICalendarFile(File):
                     # A property that occurs more than once comes back as a
                     # list; index every instance.
                     for value in p if isinstance(p, list) else [p]:
-                        if value is not None:
+                        if value is None:
+                            continue
+                        if len(segments) == 1:
                             yield value.to_ical()
+                        elif segments[1].startswith("A="):
+                            # Parameter value, as ParameterFilter.index_keys()
+                            # asks for it ("…/P=NAME/A=PARAM").
+                            try:
+                                param = value.params[segments[1][2:]]
+                            except KeyError:
+                                pass
+                            else:
+                                yield str(param).encode("utf-8")
+                        else:
+                            raise AssertionError(f"segments: {segments!r}")
             else:
                 raise AssertionError(f"segments: {segments!r}")
 
